@@ -4,6 +4,9 @@ From Coq Require Import List Ascii Arith Bool Lia.
 From GT Require Import Base.GoStr Tree.Tree Tree.Grower Out.Formatted.
 Import ListNotations.
 
+Lemma frev_rev {A} (l : list A) : frev l = rev l.
+Proof. unfold frev. symmetry. apply rev_alt. Qed.
+
 Section TreeInd.
   Variable P : tree -> Prop.
   Hypothesis H : forall n ks, Forall P ks -> P (T n ks).
